@@ -185,7 +185,12 @@ def validate(c, cfg, traces, chunk=1500):
             if pr.startswith('"{') and '\\"st\\":' in pr:
                 n = json.loads(vlib.tla_unquote(pr))
                 ti, ei = index[n["st"] - 1]
-                notes[(part[ti][0], ei)] = (n["ev"], tuple(sorted(n["labels"])), n["mut"], n["ok"], n["fresh"])
+                new = (n["ev"], tuple(sorted(n["labels"])), n["mut"], n["ok"], n["fresh"])
+                old = notes.get((part[ti][0], ei))
+                # the model may hold several candidate states at a line (allowed alternatives); keep the
+                # smallest label set so that the signature of a rejection does not depend on TLC's order
+                if old is None or (len(new[1]), new[1]) < (len(old[1]), old[1]):
+                    notes[(part[ti][0], ei)] = new
         if len(hwm) != len(resets) or not r.ok:
             raise vlib.InfraError("trace validation failed (%s, violated=%s):\n%s" % (cfg, r.violated, r.out[-5000:]))
         c.cov["states"] += r.distinct
@@ -216,11 +221,11 @@ def run(c):
     # 1. design level
     mc = c.tlc_must_pass("Session", c.pick("Session_mc.cfg", "Session_mc_thorough.cfg"), workers=6,
                          timeout=c.pick(400, 1500), coverage=True)
-    acts = re.findall(r"^<(\w+) line (\d+), col \d+ to line \d+, col \d+ of module Session[^>]*>: (\d+):(\d+)", mc.out, re.M)
-    dead = ["%s@%s" % (n, ln) for n, ln, d, t in acts if int(t) == 0]
+    acts = re.findall(r"^<(\w+) line (\d+), col \d+ to line \d+, col \d+ of module Session(?: \\((\d+) \d+ \d+ \d+\\))?>: (\d+):(\d+)", mc.out, re.M)
+    dead = ["%s@%s" % (n, sub or ln) for n, ln, sub, d, t in acts if int(t) == 0]
     if dead or len(acts) < 8:
         raise vlib.InfraError("actions never taken in the exhaustive model (or no coverage output): %s" % dead)
-    action_cov = {"%s@%s" % (n, ln): [int(d), int(t)] for n, ln, d, t in acts}
+    action_cov = {"%s@%s" % (n, sub or ln): [int(d), int(t)] for n, ln, sub, d, t in acts}
     # 2. programs from TLC simulation
     walks = c.pick(260, 900)
     sim = c.tlc("Session", "Session_sim.cfg", simulate="num=%d" % walks, depth=20, deadlock=False, timeout=600,
